@@ -41,6 +41,7 @@ func runC17(c *core.Ctx) core.Meta {
 	c.Load(sbmPkg)
 	c.BuildSSA()
 	p := NewPkgInfo(c, sbmPkg)
+	checkLog2Units(c, "R17.15", 4, "Two accesses to one interleaving unit must meet in one bank to stay ordered; with the bank chosen by address / 6 they go to different banks and overtake each other.", p)
 	checkNoCompactionWhileRanging(c, "R17.14", 1, p)
 	prov := core.NewProv(c)
 
